@@ -84,6 +84,7 @@ class SpecMon(Monitor):
         # C03 framing detector: ('start'|'line0'|'in'|'cr0'|'lost') + fired position
         self.det = ("start",) if kind in ("request", "response") else (("line0",) if kind == "headers" else ("c0",))
         self.det_at = None
+        self.det_pending = ()  # bytes consumed after the reference rejected: classified only if needed
         self.dflt = None  # the default-options reference running alongside (configured roots only)
         self.lite = False  # lite: only the automaton state is tracked (no positions, no values)
 
@@ -102,7 +103,7 @@ class SpecMon(Monitor):
     def key(self):
         return (self.q, tuple(sorted(self.marks.items())), tuple(sorted(self.exp.items())), tuple(sorted(self.got.items())), self.pend,
                 self.nstored, self.verdict, tuple(sorted(self.vals.items())), tuple(sorted(self.flags.items())), self.phase, min(self.nconsumed, 1),
-                self.last_end, self.det, self.det_at, self.dflt.q[0] == "ERR" if self.dflt is not None else None)
+                self.last_end, self.det, self.det_at, self.dflt.q[0] == "ERR" if self.dflt is not None else None, self.det_pending)
 
     # ---- plumbing ---------------------------------------------------------------------------
     def map_values(self, fv, floc):
@@ -146,8 +147,12 @@ class SpecMon(Monitor):
                         out.add(s)
         return out
 
+    def live_cells(self):
+        return tuple(self.det_pending)
+
     def cells(self):
         out = list(self.dflt.cells()) if self.dflt is not None else []
+        out.extend(self.det_pending)
         for v in self.vals.values():
             if v[0] == "cell":
                 out.append(v[1])
@@ -160,6 +165,7 @@ class SpecMon(Monitor):
     def rename_cells(self, ren):
         if self.dflt is not None:
             self.dflt.rename_cells(ren)
+        self.det_pending = tuple(ren[c] for c in self.det_pending)
 
         def r(v):
             if v[0] == "cell":
@@ -337,13 +343,22 @@ class SpecMon(Monitor):
         """Default reference only (no fold option there): nothing to resolve."""
         return
 
-    def detect(self, m, st, cid, after):
+    def detect(self, m, st, cid, after, replay=False):
         """C03 detector.  request/response: skip leading empty lines, then the start line up to its
         LF, then fire at the first line that is exactly LF or CR LF (leading SP/HTAB disregarded
         only with allow_space_before_first_header_name while no header is stored).  chunk: fire at
         the first CR LF."""
         d = self.det
         if d[0] in ("fired", "lost"):
+            return
+        if not replay and (self.det_pending or self.q[0] == "ERR"):
+            # the reference has rejected: the framing question only arises if the implementation
+            # nevertheless returns Complete/Partial; keep the byte and classify it then
+            if len(self.det_pending) >= 24:
+                self.det = ("lost",)
+                self.det_pending = ()
+            else:
+                self.det_pending = self.det_pending + (cid,)
             return
         mask = st.cells[cid]
         is_lf = not (mask & ~LF & FULL)
@@ -1218,11 +1233,27 @@ class SpecMon(Monitor):
         """C03 by the independent detector: Complete(n) exactly at the first empty line (chunk: first
         CR LF); no Partial when it is already in the buffer."""
         det, at = self.det, self.det_at
+        if kind == "err":
+            return
+        sim = self.clone()
+        if sim.det_pending:
+            # deferred bytes: positions are counted back from the cursor
+            pend = sim.det_pending
+            sim.det_pending = ()
+            n = len(pend)
+            for i, c in enumerate(pend):
+                if sim.det[0] in ("fired", "lost"):
+                    break
+                back = n - 1 - i
+                t = st.token_at(back)
+                if t is None:
+                    sim.det = ("lost",)
+                    break
+                sim.detect(m, st, c, ("B", ((t, 1),), 0), replay=True)
         # run the detector over the look-ahead the implementation has seen but not consumed
         k = 0
-        sim = self.clone()
         while sim.det[0] not in ("fired", "lost") and k < len(st.tape):
-            sim.detect(m, st, st.tape[k], ("B", ((st.cur_tok(), 1),), k + 1))
+            sim.detect(m, st, st.tape[k], ("B", ((st.cur_tok(), 1),), k + 1), replay=True)
             k += 1
         det, at = sim.det, sim.det_at
         if det[0] == "lost":
